@@ -2,8 +2,8 @@ import os
 import core
 
 STREAMS = ["c09", "c09gw"]
-NEEDS_BINARY = True
-HARNESS_ARGS = ("-rdpgw", os.path.join(core.BUILD, "rdpgw"))
+NEEDS_BINARY_RACE = True   # the assembled binary built with -race: its own reports end up in its log
+HARNESS_ARGS = ("-rdpgw", os.path.join(core.BUILD, "rdpgw-race"))
 HARNESS_RACE = True
 RULE = ("the real gateway handlers in-process under the Go race detector (harness built with -race): rounds of N in {4, 32} "
         "concurrent tunnels over both transports, each doing setup, 20 data packets with keep-alives while its host streams "
